@@ -613,7 +613,7 @@ fn main() {
     }
 
     // B. random rounds on top
-    let rounds = ctx.scale(30, 15000, 150000);
+    let rounds = ctx.scale(30, 15000, 100000);
     let nmax = ctx.scale(130, 5000, 30000);
     for r in 0..rounds {
         let mut g = ctx.rng(r as u64);
